@@ -183,7 +183,8 @@ pub fn chk_default_reset<T: SkTy>() {
     let mut i = 0; while i < T::B { ok &= x[i] == o[i]; i += 1; }
     obl!(ok, "default_state_is_configured_chaining_value_position_zero_first_message_tweak");
     let pending: [u8; 128] = any();
-    let (mut h, _x, _b) = if any::<bool>() { arbitrary_state::<T>(&pending, 0, 0) } else { arbitrary_state::<T>(&pending, 5, 0) };
+    let (mut h, _x, _b) = arbitrary_state::<T>(&pending, 0, 0);
+    if any::<bool>() { h.update(&pending[..5]); } // five pending bytes: nothing is compressed, the state stays arbitrary
     rec::reset();
     h.reset();
     obl!(rec::count() == 1 && entry_is(0, T::B, &zero, &cfg, 32, FIRST | FINAL | TYPE_CFG), "reset_reprocesses_the_configuration_block");
